@@ -2,7 +2,7 @@
 
    d hostMAC routerMAC lanAddr lanBits frameHex spareHex
      model column: the projection C02 constrains, as Session.Parse + accessors produce it:
-                   "err" | "panic" | "ok id smac sip sport dmac dip dport E:off,len 4:.. 6:.. U:.. T:.. P:.. H:b"
+                   "err:any" | "panic" | "ok id smac sip sport dmac dip dport E:off,len 4:.. 6:.. U:.. T:.. P:.. H:b"
      spec column:  the same line as the reference decoder (Spec/RFC.v) expects it for the bytes within the length
      key column:   key of the recorded defect class the frame lies in (Model/ParseKnown.v, known_C02) or "-" *)
 From PV Require Import Base.Text Base.Slice Model.Parse Model.ParseShow Model.ParseKnown.
